@@ -5,7 +5,7 @@ check (and any extra checks given) against /repo with the patch applied; records
 import json, os, shutil, subprocess, sys, glob, re
 name, k, prop, sid = sys.argv[1:5]
 extra = sys.argv[5:]
-src = "/tmp/wt/%s/SEED/%s" % (name, k)
+src = ("/tmp/seedstage/%s/SEED/%s" % (name, k)) if os.path.isdir("/tmp/seedstage/%s/SEED/%s" % (name, k)) else ("/tmp/wt/%s/SEED/%s" % (name, k))
 dst = "/verif/seeded/%s" % sid
 os.makedirs(dst, exist_ok=True)
 for f in os.listdir(src):
